@@ -4,7 +4,7 @@ STATELESS = False
 NO_SHRINK = True     # the trace of a case depends on goroutine scheduling: a shrunk script is a different run
 REQUIRED_BRANCHES = ["intro", "grab", "segend", "ipersist", "snapend", "commit", "ack", "ackobs", "rmsnap", "rmseg",
                      "imerge", "equiv", "image-after-ack", "image-before-ack", "open-existing", "img:prefix", "img:zero", "img:absent",
-                     "closerace:held", "closerace:queued-behind-persister", "close"]
+                     "closerace:held", "crashreopen:held", "open-over-torn-snapshot", "crash", "closerace:queued-behind-persister", "close"]
 ASSUMPTIONS = [
     "Event.exact (C13): a Directory.Persist that returned nil left exactly the bytes written, complete and synced; evaluated on every real Persist (file read back and compared) -> bad:assumption-persist-exact",
     "TornRejected / decoder total (C12, C03): a torn variant of a snapshot or segment file (prefix, zero-filled) is rejected by the real loader with an error, not accepted and not a fault; evaluated on every crash image opened in the child process -> bad:assumption-decoder-total / bad:acked-batch-lost",
